@@ -263,11 +263,12 @@ SC = dict(
 
 # ----------------------------------------------------------------------------- C08: schedules of StateCacheConc.tla replayed on goroutines
 
-def _conc_cfg(d, name, algo, writes, committers, readers, invs, view=True, serialised=True):
+def _conc_cfg(d, name, algo, writes, committers, readers, invs, view=True, serialised=True, dup="{}", dupearly=False):
     with open(os.path.join(d, "StateCacheConc_%s.cfg" % name), "w") as f:
         f.write("SPECIFICATION Spec\nCONSTANTS\n  Serialised = %s\n  Algo = \"%s\"\n  Blocks <- MCBlocks\n  Writes <- %s\n"
-                "  PreCommitted = 2\n  Committers <- %s\n  Readers <- %s\nINVARIANTS %s\n%sCHECK_DEADLOCK FALSE\n"
-                % ("TRUE" if serialised else "FALSE", algo, writes, committers, readers, invs, "VIEW View\n" if view else ""))
+                "  PreCommitted = 2\n  Committers <- %s\n  Dup = %s\n  DupEarly = %s\n  Readers <- %s\nINVARIANTS %s\n%sCHECK_DEADLOCK FALSE\n"
+                % ("TRUE" if serialised else "FALSE", algo, writes, committers, dup, "TRUE" if dupearly else "FALSE", readers, invs,
+                   "VIEW View\n" if view else ""))
     return "StateCacheConc_%s.cfg" % name
 
 
@@ -277,7 +278,7 @@ def run_c08(prop, tier, seed):
     binary = vlib.build_vexec()
     racebin = vlib.build_vexec(race=True)
     res = Result()
-    safety = "HitIsTruth NoPoison Found"
+    safety = "HitIsTruth NoPoison Found ReturnedFound"
     writes_all = ["WritesB", "WritesBC", "WritesOnlyB", "WritesNone"]
     # 1. design: the algorithm as coded now (link, then probe) is safe in every scope; the previous order is not
     scopes = [("CB", "R_A1"), ("CB", "R_B"), ("CB", "R_C"), ("CC", "R_C"), ("CBC", "R_BC"), ("CBC", "R_A1C"), ("CBC", "R_BB"),
@@ -291,6 +292,12 @@ def run_c08(prop, tier, seed):
         for (cm, rd) in scopes:
             n += 1
             jobs.append(_conc_cfg(d, "d%d" % n, "link_then_probe", wr, cm, rd, safety))
+
+    # two cache objects of one block committed concurrently (the second commit waits for the first)
+    for wr in writes_all:
+        for (cm, rd, dup) in [("CB", "R_B", '{"B"}'), ("CBC", "R_BC", '{"B"}'), ("CBC", "R_BC", '{"B", "C"}')]:
+            n += 1
+            jobs.append(_conc_cfg(d, "d%d" % n, "link_then_probe", wr, cm, rd, safety, dup=dup))
 
     def _design(cfg):
         sd = os.path.join(d, "dd_" + cfg[:-4])
@@ -309,6 +316,9 @@ def run_c08(prop, tier, seed):
     cfg = _conc_cfg(d, "mutlock", "link_then_probe", "WritesFreshBC", "CBC", "R_BC", "Found", serialised=False)
     vlib.design_check(d, "StateCacheConc_MC", cfg, workers=1, timeout=120, expect_violation="Found")
     log("design mutant (commits not serialised by the global lock) violates Found as expected (anti-vacuity)")
+    cfg = _conc_cfg(d, "mutdup", "link_then_probe", "WritesBC", "CB", "R_B", "ReturnedFound", dup='{"B"}', dupearly=True)
+    vlib.design_check(d, "StateCacheConc_MC", cfg, workers=1, timeout=120, expect_violation="ReturnedFound")
+    log("design mutant (a duplicate commit returns while the first is in flight) violates ReturnedFound as expected (anti-vacuity)")
     # 2. schedules: every maximal schedule of 1 committer + 1 reader (both step orders), samples of bigger scopes
     hist = os.path.join(d, "sched.ndjson")
     nh = 0
@@ -331,14 +341,21 @@ def run_c08(prop, tier, seed):
     for wr in ("WritesFreshBC", "WritesBC", "WritesB"):
         for rd in ("R_BC", "R_BB"):
             gens.append(("adv", wr, "CBC", rd, 60 if tier == "quick" else 1500))
+    # a block committed twice: every schedule of the serialised model with one reader, and adversarial ones (the duplicate
+    # moves while the first commit is in flight: on the code as it stands it blocks in the mutex)
+    for wr in ("WritesBC", "WritesOnlyB"):
+        gens.append(("link_then_probe", wr, "CB", "R_B", None, '{"B"}'))
+        gens.append(("adv", wr, "CB", "R_B", 80 if tier == "quick" else 1500, '{"B"}'))
+        gens.append(("adv", wr, "CBC", "R_BC", 60 if tier == "quick" else 1500, '{"B"}'))
     gjobs = []
     gi = 0
-    for (algo, wr, cm, rd, num) in gens:
+    for g in gens:
+        (algo, wr, cm, rd, num), dup = g[:5], (g[5] if len(g) > 5 else "{}")
         gi += 1
         if algo == "adv":
-            cfg = _conc_cfg(d, "g%d" % gi, "link_then_probe", wr, cm, rd, "Emit", view=False, serialised=False)
+            cfg = _conc_cfg(d, "g%d" % gi, "link_then_probe", wr, cm, rd, "Emit", view=False, serialised=False, dup=dup)
         else:
-            cfg = _conc_cfg(d, "g%d" % gi, algo, wr, cm, rd, "Emit", view=False)
+            cfg = _conc_cfg(d, "g%d" % gi, algo, wr, cm, rd, "Emit", view=False, dup=dup)
         extra = ["-simulate", "num=%d" % num, "-depth", "60", "-seed", str(seed + gi)] if num else []
         gjobs.append((gi, cfg, extra))
 
@@ -833,8 +850,8 @@ def _replay_c08(payload, path):
     binary = vlib.build_vexec()
     hist = os.path.join(d, "sched.ndjson")
     with open(hist, "w") as f:
-        f.write(json.dumps(dict(blocks=ev["blocks"], writes=ev["writes"], pre=ev["pre"], committers=ev["committers"],
-                                readers=ev["readers"], sched=ev["sched"])) + "\n")
+        f.write(json.dumps(dict(blocks=ev["blocks"], writes=ev["writes"], pre=ev["pre"], committers=ev.get("cprocs", ev["committers"]),
+                                readers=ev["readers"], sched=ev["sched"], adv=ev.get("adv", False))) + "\n")
     prefix = os.path.join(d, "trace")
     vlib.vexec(binary, ["sched", "-hist", hist, "-out", prefix, "-shards", 1])
     vr = vlib.validate_traces(d, "StateCacheSchedTrace", "StateCacheSchedTrace.cfg", sorted(glob.glob(prefix + ".*.ndjson")))
